@@ -113,6 +113,44 @@ def oracle(cases, impl, spec):
     return out
 
 
+def order_oracle(run, cases, spec):
+    """The conversions are functions of their argument: the answers must not
+    depend on what was asked before.  The small domain (-5..105 and every
+    label) is asked again in ONE interpreter in descending and in a seeded
+    random order and compared with the tabulated answer."""
+    want = {}
+    small = []
+    for c, s in zip(cases, spec):
+        if isinstance(c["arg"], int) and not -5 <= c["arg"] <= 105:
+            continue
+        want[(c["fn"], c["arg"])] = s
+        small.append(c)
+    out = []
+    orders = [("descending", list(reversed(small)))]
+    sh = list(small)
+    run.rng.shuffle(sh)
+    orders.append(("shuffled", sh))
+    run.coverage["order_independence_calls"] = 0
+    for name, seq in orders:
+        got = common.run_impl("c20_impl", seq, procs=1)
+        run.coverage["order_independence_calls"] += len(seq)
+        for k, (c, g) in enumerate(zip(seq, got)):
+            if g != want[(c["fn"], c["arg"])]:
+                # shrink: does the immediately preceding call of the same function suffice?
+                prev = [x for x in seq[:k] if x["fn"] == c["fn"]][-1:]
+                short = prev + [c]
+                if common.run_impl("c20_impl", short, procs=1)[-1] == g:
+                    seqr = short
+                else:
+                    seqr = seq[:k + 1]
+                out.append(Violation(
+                    "%s(%r) gives %s after other calls (%s order), the STIX 2.1 table gives %s"
+                    % (c["fn"], c["arg"], g, name, want[(c["fn"], c["arg"])]),
+                    {"kind": "sequence", "seq": seqr, "impl": g, "spec": want[(c["fn"], c["arg"])]}))
+                break
+    return out
+
+
 def check(run):
     run.coverage["rule"] = ("every integer -1000..1100 and 2^k+-1 (k<=80) through each value_to_X, every scale label, "
                             "labels of other scales and one-edit mutants through each X_to_value; implementation vs "
@@ -155,6 +193,7 @@ def check(run):
         except RuntimeError as e:
             run.broken.append(Broken("correspondence", "model evaluation failed", {"error": str(e)[-1500:]}))
     run.violations += oracle(cases, impl, spec)
+    run.violations += order_oracle(run, cases, spec)
     run.coverage["exhaustive"] = True
     run.coverage["trusted_base"] += [
         "translators/tr_scales.py (fail-closed AST translator; validated each run by the sweep above)",
@@ -165,6 +204,18 @@ def check(run):
 
 def replay(payload):
     r = payload["replay"]
+    if r.get("kind") == "sequence":
+        seq = r["seq"]
+        got = common.run_impl("c20_impl", seq, procs=1)[-1]
+        c = seq[-1]
+        spec = common.coq_eval_lines("c20r", HEADER_SPEC, [spec_term(c)])[0]
+        print("replay of %d calls in one interpreter, last %s(%r): implementation=%s specification=%s"
+              % (len(seq), c["fn"], c["arg"], got, spec))
+        if got != spec:
+            print("VIOLATION property=C20 replay=(given)")
+            return 1
+        print("no violation on this input")
+        return 0
     c = r["case"]
     impl = common.run_impl("c20_impl", [c], procs=1)[0]
     spec = common.coq_eval_lines("c20r", HEADER_SPEC, [spec_term(c)])[0]
